@@ -12,6 +12,7 @@
 // @stubs Phreeqc engine (events); iostream model
 // @outside engine state (see C07.init_noninterference); per-run strings cleared by the next run's prologue (C04.entry_equiv executes check_database)
 // @id C07.load_switches
+// @also C13
 // @also C09
 // @engine B
 // @entry vfh_C07_load_switches
